@@ -50,6 +50,54 @@ func drawSched(rt *rapid.T) schedPlan {
 	return p
 }
 
+// The hook itself is installed once for the whole test binary; a case activates its plan by
+// publishing it, and may additionally set a trap: a function that runs (once) inside the library
+// goroutine that reaches a given point, which lets a case perform an action exactly inside a window
+// (e.g. Close while a connect routine is between "dial returned" and "connection registered").
+var (
+	schedCurrent atomic.Pointer[schedPlan]
+	schedTrap    atomic.Pointer[trap]
+)
+
+type trap struct {
+	point int
+	fired atomic.Bool
+	fn    func()
+}
+
+func init() { mpx.VerifSetYieldHook(schedHook) }
+
+func schedHook(point int) {
+	if tr := schedTrap.Load(); tr != nil && tr.point == point && tr.fired.CompareAndSwap(false, true) {
+		tr.fn()
+		return
+	}
+	p := schedCurrent.Load()
+	if p == nil || point < 0 || point >= len(schedVisits) || p.Points&(1<<uint(point)) == 0 {
+		return
+	}
+	n := schedVisits[point].Add(1)
+	h := mix64(p.Seed ^ uint64(point)<<56 ^ n)
+	den := uint64(16)
+	if p.Level == 2 {
+		den = 4
+	}
+	if h%den != 0 {
+		return
+	}
+	schedHits.Add(1)
+	switch (h >> 8) % 4 {
+	case 0, 1:
+		for k := uint64(0); k <= (h>>16)%4; k++ {
+			runtimeGosched()
+		}
+	case 2:
+		time.Sleep(time.Duration(20+(h>>16)%80) * time.Microsecond)
+	default:
+		time.Sleep(time.Duration(100+(h>>16)%400) * time.Microsecond)
+	}
+}
+
 // install activates the plan until the returned function is called.
 func (p schedPlan) install() (remove func()) {
 	if p.Level == 0 {
@@ -58,30 +106,18 @@ func (p schedPlan) install() (remove func()) {
 	for i := range schedVisits {
 		schedVisits[i].Store(0)
 	}
-	mpx.VerifSetYieldHook(func(point int) {
-		if point < 0 || point >= len(schedVisits) || p.Points&(1<<uint(point)) == 0 {
-			return
-		}
-		n := schedVisits[point].Add(1)
-		h := mix64(p.Seed ^ uint64(point)<<56 ^ n)
-		den := uint64(16)
-		if p.Level == 2 {
-			den = 4
-		}
-		if h%den != 0 {
-			return
-		}
-		schedHits.Add(1)
-		switch (h >> 8) % 4 {
-		case 0, 1:
-			for k := uint64(0); k <= (h>>16)%4; k++ {
-				runtimeGosched()
-			}
-		case 2:
-			time.Sleep(time.Duration(20+(h>>16)%80) * time.Microsecond)
-		default:
-			time.Sleep(time.Duration(100+(h>>16)%400) * time.Microsecond)
-		}
-	})
-	return func() { mpx.VerifSetYieldHook(nil) }
+	pp := p
+	schedCurrent.Store(&pp)
+	return func() { schedCurrent.Store(nil) }
+}
+
+// setTrap arms fn to run once in the library goroutine that next reaches point; the returned
+// function disarms it and reports whether it fired.
+func setTrap(point int, fn func()) (disarm func() bool) {
+	tr := &trap{point: point, fn: fn}
+	schedTrap.Store(tr)
+	return func() bool {
+		schedTrap.CompareAndSwap(tr, nil)
+		return tr.fired.Load()
+	}
 }
